@@ -689,6 +689,12 @@ func (e *Env) evalCall(n *ECall) (SVal, types.Type, error) {
 		}
 		r := refOf(v)
 		return Scalar{And(Neq(r, IntLit(0)), Ge(birth(r), o.now), Lt(birth(r), e.st.now), Eq(App(SInt, "tagof", r), IntLit(0)))}, tBool, nil
+	case "heapobj":
+		v, _, err := e.eval(n.Args[0])
+		if err != nil {
+			return nil, nil, err
+		}
+		return Scalar{Eq(App(SInt, "tagof", refOf(v)), IntLit(0))}, tBool, nil
 	case "allocated":
 		v, _, err := e.eval(n.Args[0])
 		if err != nil {
